@@ -11,7 +11,7 @@ primitives at execution time (signatures are randomised, keys are per run).
   backend host=<h> id=<id> url=<normalised url|%> http=<0|1> limit=<n> owner=<tenant|*>
   tenant name=<t> key=<rsa|ecdsa|ed25519|none> fed=<0|1>
   start
-  connect c=<n> addr=<ip>
+  connect c=<n> addr=<ip> akey=<r:ip|6:hex>
   disconnect c=<n>
   hello c=<n> ver= rid= auth= params= type= url= u.*= v1= pok= t.*= rnd= b.*=
   msg c=<n> ty=<type> shape=<undecodable|invalid|valid>
@@ -83,8 +83,17 @@ def parseShape (s : String) : Option Shape :=
   if s == "undecodable" then some .undecodable else if s == "invalid" then some .invalid
   else if s == "valid" then some .valid else none
 
+/-- `r:<enc string>` (unparsable / IPv4 / mapped) or `6:<32 hex digits>` (genuine IPv6), classified by the
+generator with `net.ParseIP` (as in the C17 harness) -/
+def parseAddr (tok : String) : Throttle.Addr :=
+  if hasPrefix "6:" tok then
+    match hexToNats (takeS 32 (dropS 2 tok)).toList with
+    | some bs => if bs.length = 16 then .v6 bs else .raw tok
+    | none => .raw tok
+  else .raw ((dec (dropS 2 tok)).getD "")
+
 def parseOp (verb : String) (kv ora : KV) : Option Op :=
-  if verb == "connect" then some (.connect (getN kv "c") (getS kv "addr"))
+  if verb == "connect" then some (.connect (getN kv "c") (parseAddr (get kv "akey")))
   else if verb == "disconnect" then some (.disconnect (getN kv "c"))
   else if verb == "hello" then some (.hello (getN kv "c") (parseHello kv ora))
   else if verb == "msg" then (parseShape (get kv "shape")).map (fun sh => .msg (getN kv "c") (getS kv "ty") sh)
